@@ -151,7 +151,7 @@ static void run_domains(int tier)
 }
 
 /* basic objects */
-static const struct { int o; uint16_t idx; uint8_t sub; } BASIC[] = { {O_U8, 0x2000, 0}, {O_U16, 0x2001, 0}, {O_U32, 0x2002, 0}, {O_U32D, 0x2003, 0}, {O_NID, 0x2006, 0}, {O_SUB1, 0xA030, 1}, {O_DOM3, 0x2010, 0} };
+static const struct { int o; uint16_t idx; uint8_t sub; } BASIC[] = { {O_U8, 0x2000, 0}, {O_U16, 0x2001, 0}, {O_U32, 0x2002, 0}, {O_U32D, 0x2003, 0}, {O_NID, 0x2006, 0}, {O_U16D, 0x2007, 0}, {O_U8D, 0x2008, 0}, {O_U32Z, 0x2009, 0}, {O_SUB1, 0xA030, 1}, {O_DOM3, 0x2010, 0} };
 static void basic_case(int b, uint32_t L, int mode, int announce)
 {
     int r, o = BASIC[b].o; uint32_t S = OBJ[o].size; uint8_t v[8]; char smp[160];
@@ -187,7 +187,8 @@ static void run_basic(void)
 #if CO_SSDO_N > 1
 /* second server: a scripted transfer (frames fixed in advance) interleaved at every position of the primary one */
 static uint8_t SEC[8][8]; static int NSEC, sec_pos[8], sec_sent;
-static void sec_hook(int i) { while (sec_sent < NSEC && sec_pos[sec_sent] <= i) { sdo_request(1, SEC[sec_sent]); mc_steps++; sec_sent++; } }
+static int sec_srv = 1;        /* pkind bit 1: roles swapped - the long transfer runs on server 1, the scripted one on server 0 */
+static void sec_hook(int i) { while (sec_sent < NSEC && sec_pos[sec_sent] <= i) { sdo_request(sec_srv, SEC[sec_sent]); mc_steps++; sec_sent++; } }
 static void make_secondary(int kind)
 {
     NSEC = 0; memset(SEC, 0, sizeof SEC);
@@ -205,34 +206,37 @@ static void make_secondary(int kind)
 }
 static void two_server_case(int pkind, uint32_t S, int skind, const int *pos)
 {
-    int r; char smp[160];
+    int r, psrv = (pkind >> 1) & 1; char smp[160];
+    sec_srv = 1 - psrv; pkind &= 1;
     w_restore(snap0); w_obs_clear();
     set_dom_size(S);
     make_secondary(skind);
     for (int i = 0; i < NSEC; i++) sec_pos[i] = pos[i];
     sec_sent = 0; cl_hook = sec_hook; cl_hook_i = 0;
     cl_trace = 0; cl_frames = 0;
-    if (pkind == 0) r = cl_seg_dl(0, 0x2012, 0, PAY, S, 1); else r = cl_blk_dl(0, 0x2012, 0, PAY, S, 1, 0, 0);
+    if (pkind == 0) r = cl_seg_dl(psrv, 0x2012, 0, PAY, S, 1); else r = cl_blk_dl(psrv, 0x2012, 0, PAY, S, 1, 0, 0);
     sec_hook(1 << 30);
     cl_hook = 0;
     if (r != CL_OK) mc_fail("c02-refused", "two servers: primary transfer (kind %d, %u bytes) not confirmed: %s %08X", pkind, S, r == CL_PROTOCOL ? cl_err : "abort", cl_abort);
     else if (memcmp(DomB, PAY, S)) mc_fail("c02-wrong-bytes", "two servers: primary object differs from the payload");
     else if (skind == 0 ? V32 != 0xCAFEF00D : memcmp(DomA, PAY + 100, 10) != 0) mc_fail("c02-wrong-bytes", "two servers: the object written through the second server differs from its payload");
-    if (SM[1].st != S_IDLE) mc_fail("c02-protocol", "two servers: secondary transfer not completed");
-    snprintf(smp, sizeof smp, "two servers: primary %s %u bytes, secondary kind %d at positions %d,%d,%d,%d", pkind ? "blk" : "seg", S, skind, pos[0], pos[1], pos[2], pos[3]);
+    if (SM[sec_srv].st != S_IDLE) mc_fail("c02-protocol", "two servers: secondary transfer not completed");
+    snprintf(smp, sizeof smp, "two servers: primary %s %u bytes on server %d, secondary kind %d at positions %d,%d,%d,%d", pkind ? "blk" : "seg", S, psrv, skind, pos[0], pos[1], pos[2], pos[3]);
     mc_case_end(outcome_hash(r), 1, smp);
 }
 static void run_two(int tier)
 {
     /* all interleavings: primary of P requests, secondary of Q frames -> all non-decreasing position vectors */
-    for (int pkind = 0; pkind < 2; pkind++) for (int si = 0; si < 3; si++) {
+    for (int pk = 0; pk < 4; pk++) for (int si = 0; si < 3; si++) {
+        int pkind = pk & 1;
         uint32_t S = si == 0 ? 10 : si == 1 ? 21 : (tier ? 1000 : 900);
+        if (pk >= 2 && si < 2 && !tier) continue;              /* swapped roles: the long transfers in quick, all in thorough */
         int P = pkind == 0 ? 1 + (int)((S + 6) / 7) : 2 + (int)((S + 6) / 7) + (int)((S + 6) / 7 + 126) / 127;
         for (int skind = 0; skind < 3; skind++) {
             int Q = skind == 0 ? 1 : skind == 1 ? 3 : 4, pos[4] = { 0, 0, 0, 0 };
             if (S > 100 && skind > 0 && !tier) {
                 /* long primary: the whole secondary transfer inserted at every single position */
-                for (int p = 0; p <= P && !mc_deadline_hit(); p++) { pos[0] = pos[1] = pos[2] = pos[3] = p; mc_case(8, 2, pkind, (int)S, skind, pos[0], pos[1], pos[2], pos[3]); two_server_case(pkind, S, skind, pos); }
+                for (int p = 0; p <= P && !mc_deadline_hit(); p++) { pos[0] = pos[1] = pos[2] = pos[3] = p; mc_case(8, 2, pk, (int)S, skind, pos[0], pos[1], pos[2], pos[3]); two_server_case(pk, S, skind, pos); }
                 continue;
             }
             int stride = S > 100 ? 9 : 1;
@@ -240,8 +244,8 @@ static void run_two(int tier)
                 for (pos[1] = pos[0]; pos[1] <= (Q > 1 ? P : pos[0]); pos[1] += stride)
                     for (pos[2] = pos[1]; pos[2] <= (Q > 2 ? P : pos[1]); pos[2] += stride)
                         for (pos[3] = pos[2]; pos[3] <= (Q > 3 ? P : pos[2]); pos[3] += stride) {
-                            mc_case(8, 2, pkind, (int)S, skind, pos[0], pos[1], pos[2], pos[3]);
-                            two_server_case(pkind, S, skind, pos);
+                            mc_case(8, 2, pk, (int)S, skind, pos[0], pos[1], pos[2], pos[3]);
+                            two_server_case(pk, S, skind, pos);
                         }
         }
     }
